@@ -1002,6 +1002,7 @@ func ruleInsertUnderMiss(c *Ctx, spawn *ssa.Function, outputsF *types.Var) {
 						var ex []Atom
 						if ifi, isIf := pred.Instrs[len(pred.Instrs)-1].(*ssa.If); isIf && pred.Succs[0] != pred.Succs[1] {
 							ex = append(ex, Atom{Cond: vw.Term(ifi.Cond), Taken: pred.Succs[0] == d, Instr: ifi})
+							ex = append(ex, vw.predicateAtoms(ifi.Cond, pred.Succs[0] == d)...) // (`!f.taken(id)`: what the predicate tested)
 						}
 						if missGuard(vw, pred, ex, keyTerm, outputsF, 0) {
 							continue
@@ -1051,6 +1052,7 @@ func ruleInsertUnderMiss(c *Ctx, spawn *ssa.Function, outputsF *types.Var) {
 						var ex []Atom
 						if ifi, isIf := pred.Instrs[len(pred.Instrs)-1].(*ssa.If); isIf && pred.Succs[0] != pred.Succs[1] {
 							ex = append(ex, Atom{Cond: vw.Term(ifi.Cond), Taken: pred.Succs[0] == phi.Block(), Instr: ifi})
+							ex = append(ex, vw.predicateAtoms(ifi.Cond, pred.Succs[0] == phi.Block())...) // (`!f.taken(id)`: what the predicate tested)
 						}
 						if !missGuard(vw, pred, ex, vw.Term(e).String(), outputsF, 0) {
 							all = false
@@ -1145,6 +1147,7 @@ func missGuard(vw *FnView, b *ssa.BasicBlock, extra []Atom, keyTerm string, outp
 			var ex []Atom
 			if ifi, isIf := pred.Instrs[len(pred.Instrs)-1].(*ssa.If); isIf && pred.Succs[0] != pred.Succs[1] {
 				ex = append(ex, Atom{Cond: vw.Term(ifi.Cond), Taken: pred.Succs[0] == phi.Block(), Instr: ifi})
+				ex = append(ex, vw.predicateAtoms(ifi.Cond, pred.Succs[0] == phi.Block())...) // (`!f.taken(id)`: what the predicate tested)
 			}
 			if !missGuard(vw, pred, ex, keyTerm, outputsF, depth+1) {
 				okAll = false
